@@ -405,6 +405,67 @@ func c04Edge(t *testing.T, rng *rand.Rand) (viols [][2]string, stats map[string]
 	return
 }
 
+
+// c04Crowded: many DISTINCT user events (queries) carry one and the same Lamport time - every
+// UserEvent call stamps the local clock, so a cluster-wide cron firing `serf event` on every node
+// produces exactly that. Each of them is re-broadcast once when it is first seen and never
+// again, however many there are and however often copies of them come back.
+func c04Crowded(t *testing.T, rng *rand.Rand) (viols [][2]string, stats map[string]int, desc string) {
+	stats = map[string]int{}
+	n := 2 + rng.Intn(70)
+	lt := uint64(1 + rng.Intn(500))
+	queries := rng.Intn(3) == 0
+	desc = fmt.Sprintf("%d distinct messages (queries=%v) at Lamport time %d", n, queries, lt)
+	synctest.Test(t, func(t *testing.T) {
+		net := simnet.New(1)
+		nd, err := cluster.Start(net, cluster.Opts{Name: "self", IP: "10.0.0.1", Profile: "passive", EventBuf: 1 << 15,
+			Mutate: func(c *serf.Config) { c.BroadcastTimeout, c.LeavePropagateDelay = 0, 0 }})
+		if err != nil {
+			viols = append(viols, [2]string{"setup", err.Error()})
+			return
+		}
+		defer nd.Close()
+		tr := &c04Tracker{seenPtr: map[uintptr]bool{}}
+		synctest.Wait()
+		tr.poll(nd)
+		msgs := make([][]byte, n)
+		for i := range msgs {
+			if queries {
+				msgs[i] = wire.Encode(wire.Query, &wire.MsgQuery{LTime: lt, ID: uint32(1000 + i), Addr: []byte{10, 0, 0, 9}, Port: 7946, SourceNode: "src", Timeout: time.Second, Name: "q"})
+			} else {
+				msgs[i] = wire.Encode(wire.UserEvent, &wire.MsgUserEvent{LTime: lt, Name: "cron", Payload: []byte(fmt.Sprint("node-", i))})
+			}
+		}
+		enq := map[string]int{}
+		deliver := func(i int, round string) {
+			nd.NotifyMsg(append([]byte(nil), msgs[i]...))
+			synctest.Wait()
+			stats["deliveries"]++
+			for _, f := range tr.poll(nd) {
+				k := string(f)
+				if k != string(msgs[i]) {
+					viols = append(viols, [2]string{"foreign-enqueue", fmt.Sprintf("%s: delivery of message %d enqueued another message", round, i)})
+					continue
+				}
+				enq[k]++
+				stats["rebroadcasts"]++
+				if enq[k] > 1 && len(viols) < 3 {
+					viols = append(viols, [2]string{"rebroadcast-twice/crowded-time", fmt.Sprintf("%s: message %d of %d distinct ones at Lamport time %d was re-broadcast %d times", round, i, n, lt, enq[k])})
+				}
+			}
+		}
+		for i := range msgs {
+			deliver(i, "first copies")
+		}
+		for round := 0; round < 3 && len(viols) == 0; round++ {
+			for _, i := range rng.Perm(n) {
+				deliver(i, fmt.Sprintf("duplicates, round %d", round+1))
+			}
+		}
+	})
+	return
+}
+
 // c04SameRace: several copies of one NEW message arrive at the same instant on different
 // goroutines (memberlist hands a UDP packet and every TCP stream to NotifyMsg on goroutines
 // of their own). However the copies interleave inside the node, the message is re-broadcast once.
@@ -524,6 +585,19 @@ func TestC04(t *testing.T) {
 		}
 		for _, v := range viols {
 			r.Violation(v[0], ci, v[1]+" ; history: "+desc, desc)
+		}
+	})
+	r.Cases("crowded", r.N(120, 3000), 0, func(ci int, rng *rand.Rand) {
+		viols, stats, desc := c04Crowded(t, rng)
+		r.Eval(1)
+		for k, v := range stats {
+			r.Count("crowded_"+k, v)
+		}
+		if stats["rebroadcasts"] > 16 {
+			r.Distinct(desc)
+		}
+		for _, v := range viols {
+			r.Violation(v[0], ci, v[1]+" ; "+desc, desc)
 		}
 	})
 	floor := 300
